@@ -71,6 +71,7 @@ type Spec struct {
 	Workers    int               `json:"workers"`
 	IntTokens  bool              `json:"int_tokens"`
 	BudgetS    map[string]int    `json:"budget_s"`
+	Solver     string            `json:"solver"` // "" = z3 (cvc5 int-mode one-shot fallback); "cvc5int" = persistent cvc5 --solve-bv-as-int=sum
 }
 
 type KnownFinding struct {
@@ -413,7 +414,11 @@ func (r *runner) newMachine(dump bool) (*sym.Machine, error) {
 	if v, ok := r.spec.TimeoutMs[r.tier]; ok {
 		to = v
 	}
-	s, err := smt.New("z3", to)
+	bin := "z3"
+	if r.spec.Solver != "" {
+		bin = r.spec.Solver
+	}
+	s, err := smt.New(bin, to)
 	if err != nil {
 		return nil, err
 	}
@@ -1044,6 +1049,13 @@ func (r *runner) writeEvidenceFull(hruns []*harnessRun, exit int, inconc []strin
 	b, _ := json.MarshalIndent(ev, "", " ")
 	os.MkdirAll(filepath.Join(verifDir, "evidence"), 0o755)
 	os.WriteFile(filepath.Join(verifDir, "evidence", r.spec.Property+".json"), b, 0o644)
+}
+
+func checkerCmd(solver string) string {
+	if solver == "cvc5int" {
+		return "cvc5 1.0 --incremental --solve-bv-as-int=sum (bit-vector semantics kept mod 2^k)"
+	}
+	return "z3 -in (4.8.12), fallback cvc5 --solve-bv-as-int=sum"
 }
 
 func max1(x int) int {
